@@ -158,17 +158,13 @@ impl EventSource for EventSender<'_> {
 impl Drop for EventSender<'_> {
     // when the select coroutine finished will trigger this drop
     fn drop(&mut self) {
-        // wait until the last `subscribe` has finished with the cqueue
-        if self.kernel.load(Ordering::Acquire) {
-            // the Done event below must be sent in any case: this wait must not
-            // raise the Cancel panic, also not when the cqueue cancels us while
-            // we are unwinding from a panic of our own
-            let cancel = current_cancel_data();
-            cancel.disable_cancel();
-            while self.kernel.load(Ordering::Acquire) {
-                yield_now();
-            }
-            cancel.enable_cancel();
+        // wait until the last `subscribe` has finished with the cqueue. it is running
+        // on another thread right now and needs a few instructions. don't yield the
+        // coroutine here: we may be in the middle of an unwind, and a coroutine that
+        // is resumed on another thread there leaves the panic counters of both
+        // threads unbalanced (the cqueue's mutex gets poisoned by a healthy thread)
+        while self.kernel.load(Ordering::Acquire) {
+            std::thread::yield_now();
         }
         self.cqueue.ev_queue.push(Event {
             id: self.id,
